@@ -796,7 +796,7 @@ pub(crate) fn run(replay: Option<&str>) -> Report {
         // (thorough: 7 / 5 - the state now contains the queued change events, which costs a
         // factor of ~15 in states against the earlier, unsound, fingerprint)
         let d = if m.ops.len() > 16 { if thorough { depth - 2 } else { depth - 1 } } else { depth };
-        let cfg = BfsCfg { max_depth: d, max_secs: if thorough { 1500 } else { 40 }, ..Default::default() };
+        let cfg = BfsCfg { max_depth: d, max_secs: if thorough { 600 } else { 40 }, ..Default::default() };
         bfs::bfs(&m, &cfg, &mut rep);
         if let Some(e) = take_machinery() {
             rep.machinery_error = Some(e);
